@@ -208,6 +208,19 @@ func main() {
 				Key: "text:" + id.name + ":" + string(t), Kind: "text-malformed-" + id.name, Nontrivial: true,
 				Replay: map[string]interface{}{"api": id.name + ".UnmarshalText", "text": string(t)}})
 			d := r.Bytes(id.k + []int{-1, 0, 0, 1, 3}[r.Intn(5)])
+			if i%3 == 0 {
+				// the raw forms fed with what is really the text form (or another identifier's raw form that
+				// happens to consist of ASCII hex digits): wrong length, must be refused
+				d = append([]byte{}, t...)
+			} else if i%3 == 1 {
+				d = make([]byte, []int{id.k * 2, id.k*2 + 2, id.k, id.k * 4, 8, 16, 6, 4}[r.Intn(8)])
+				for j := range d {
+					d[j] = hexd[r.Intn(len(hexd))]
+				}
+				if len(d) == id.k*2+2 {
+					d[0], d[1] = '0', 'x'
+				}
+			}
 			b, e = id.unbin(d)
 			s.Add(cases.Case{Term: fmt.Sprintf("CBin %d%%nat %s %s", id.k, cq.Bytes(d), outcome(b, e)),
 				Key: "bin:" + id.name + ":" + fmt.Sprintf("%x", d), Kind: "binary-anylen-" + id.name, Nontrivial: true,
